@@ -51,7 +51,9 @@ func signedKey(m *peer.SignedMsg) string {
 	return string(b)
 }
 
-func (t *symtab) add(m *signaling_rpc.SessionMsg, s *symSigned) { t.tab[signedKey(m.GetSignedMsg())] = s }
+func (t *symtab) add(m *signaling_rpc.SessionMsg, s *symSigned) {
+	t.tab[signedKey(m.GetSignedMsg())] = s
+}
 
 // term renders a SessionMsg as a Coq smsg term.
 func (t *symtab) term(m *signaling_rpc.SessionMsg) string {
@@ -166,13 +168,13 @@ var badClasses = []string{"flip-body", "flip-sig", "third-claims-a", "third-own"
 // ------------------------------------------------------------------ script ops
 
 type sop struct {
-	kind string // conn resp abort send cancelsend recv cancelrecv
-	resp *signaling_rpc.SessionResponse
-	fail bool // resp: the stream fails instead
+	kind  string // conn resp abort send cancelsend recv cancelrecv
+	resp  *signaling_rpc.SessionResponse
+	fail  bool                           // resp: the stream fails instead
 	extra *signaling_rpc.SessionResponse // resp: a second response queued before the client runs
-	body []byte
-	idx  int
-	note string
+	body  []byte
+	idx   int
+	note  string
 }
 
 func (o *sop) coq(t *symtab) string {
